@@ -175,7 +175,13 @@ def require_actions(mc, names):
             raise ToolError("vacuity: action %s of %s was never taken" % (n, mc["module"]))
 
 
+LAST_HARNESS = {}
+
+
 def run_harness(driver, cases, trace, env=None, timeout=3000, args=None, universe=None):
+    # remembered for the replay recipe of the violations found in the trace this run produces
+    LAST_HARNESS.clear()
+    LAST_HARNESS.update({"driver": driver, "env": dict(env or {})})
     e = dict(os.environ)
     if env:
         e.update(env)
@@ -345,8 +351,11 @@ class Check:
         self.mc.append({k: mc[k] for k in ("module", "cfg", "generated", "distinct", "depth", "replays", "wall_s", "actions")})
 
     def add_validation(self, v, cases_path=None, behaviours=None, boundary=("reset",), cid_key="cid", classes=None, universe=None):
-        self._universe = universe
         """Fold a validation result in: count traces, classify verdicts."""
+        self._universe = universe
+        # how to re-run one behaviour of THIS part of the check (a check may drive several specifications)
+        self._recipe = {"driver": LAST_HARNESS.get("driver"), "env": LAST_HARNESS.get("env", {}), "trace_module": v["module"],
+                        "trace_cfg": v["module"] + ".cfg", "boundary": list(boundary)}
         self.events += v["events"]
         if behaviours is not None:
             self.traces += behaviours
@@ -396,7 +405,7 @@ class Check:
         if len(blob) > 200000:
             evs = [{"ev": e.get("ev"), "o": e.get("o"), "note": "event too large, re-run the replay to see it"} for e in evs]
         json.dump({"property": self.prop, "class": cls, "trace_line": at, "case": case,
-                   "universe": getattr(self, "_universe", None), "events": evs}, open(path, "w"), indent=1)
+                   "universe": getattr(self, "_universe", None), "recipe": getattr(self, "_recipe", None), "events": evs}, open(path, "w"), indent=1)
         self.violations.append((cls, path))
 
     def finish(self, rule="", explanation="", exhaustive=False):
@@ -449,10 +458,14 @@ class Check:
 def generic_replay(prop, module, path):
     """Re-run one recorded violation: its case goes through the harness again (real library, current
     working tree) and the resulting trace is validated again."""
-    info = getattr(module, "REPLAY", {}).get(prop) or getattr(module, "REPLAY", {}).get("*")
+    rec = json.load(open(path))
+    info = rec.get("recipe") if (rec.get("recipe") or {}).get("driver") else None
+    if info:
+        info = dict(info, boundary=tuple(info.get("boundary") or ("reset",)))
+    else:
+        info = getattr(module, "REPLAY", {}).get(prop) or getattr(module, "REPLAY", {}).get("*")
     if not info:
         raise ToolError("no replay recipe for " + prop)
-    rec = json.load(open(path))
     if rec.get("case") is None:
         raise ToolError("replay file carries no case")
     wd = workdir(prop + "-replay")
